@@ -409,7 +409,17 @@ def fi_rules(rep, mod, T, fams):
             r3 = FiRun(mod, T, triple, cls, upper)
             absorb(r3)
             times['%s %s' % (pct, cls)] = round(r3.seconds, 2)
-            loops_run = [n for (n, L, info) in r3.heavy_loops() if info is not None]
+            toks0 = [t for (t, _) in r3.tokens]
+            if any(t is None for t in toks0):
+                # the word is assembled in a way the interpretation does not follow to a constant text (e.g. copied character by
+                # character out of a table): neither "printed as a word" nor "printed as a number" can be claimed
+                raise AnalysisBroken('%s: the text printed for %s is not a constant string the analysis can read' % (FN, cls))
+
+            def float_loop(L):
+                return any(i.op in ('fadd', 'fsub', 'fmul', 'fdiv', 'frem', 'fcmp') or
+                           (i.op == 'call' and (i.callee or '').lstrip('llvm.').startswith(('fmod', 'modf', 'pow', 'fabs', 'round', 'floor', 'ceil', 'log')))
+                           for b in L['blocks'] for i in b.insts)
+            loops_run = [n for (n, L, info) in r3.heavy_loops() if info is not None and float_loop(L)]
             nonterm = [n for (n, L, info) in r3.heavy_loops() if info is not None and info['closed'] != 'unrolled']
             bad3 = r3.failed(('bounds', 'cstr', 'fpcast'))
             word = cls.lstrip('+-')
